@@ -531,7 +531,10 @@ with parseStrictTermArg (fuel : nat) (curObj : N) : M (option N * pres) :=
     lex nextOpcode ;;;
     mlet termObj <~ newObj nextOp ;;
     wrf termObj (set_amlOffset curOffset) ;;;
+    (* commit 22b55e5: attached to curObj while its args are parsed *)
+    appendM (Some curObj) termObj ;;;
     mlet res <~ parseObjectArgs fuel termObj ;;
+    detachM (Some curObj) (Some termObj) ;;;
     mlet e <~ eofM ;;
     (if e then popPkgEnd else ret tt) ;;;
     ret (Some termObj, res)
@@ -860,7 +863,18 @@ with deferred_loop (fuel : nat) (parseFuel : nat) (argIndex : N) : M pres :=
   deferred_loop fuel' parseFuel nx
   end.
 
-(** ---- connectNonNamedObjArgs ---- *)
+(** ---- connectNonNamedObjArg / connectNonNamedObjArgs (split by commit ef83487) ---- *)
+Definition connectNonNamedObjArg (fuel : nat) (obj argObj : N) : M pres :=
+  mlet ao <~ rdo argObj ;;
+  mlet '(_, flags, argFlags) <~ info (o_infoIndex ao) ;;
+  mlet h <~ get p_handle ;;
+  if hasFlag flags aml_pOpFlagNamed || negb (o_tableHandle ao =? h) then ret ROk else
+  let argCnt := argCount argFlags in
+  let tai := termArgIndex argFlags in
+  mlet na <~ tq (fun t => NumArgs t (Some argObj)) ;;
+  if (argCnt <=? tai) || (tai <? na) then ret ROk else
+  attachSiblingsAsArgs fuel obj argObj (w8 (argCnt + 0x100 - tai)) true.
+
 Fixpoint connectNonNamedObjArgs (fuel : nat) (objIndex : N) : M pres :=
   match fuel with O => outOfFuel | S fuel' =>
   mlet obj <~ objectAt' objIndex ;;
@@ -874,17 +888,9 @@ with connectNonNamed_loop (fuel : nat) (obj : N) (argIndex : N) : M pres :=
   mlet ai <~ rdf argObj o_index ;;
   mlet res <~ connectNonNamedObjArgs fuel' ai ;;
   if negb (pres_eqb res ROk) then ret RFailed else
-  let continue := mlet prev <~ rdf argObj o_prev ;; connectNonNamed_loop fuel' obj prev in
-  mlet ao <~ rdo argObj ;;
-  mlet '(_, flags, argFlags) <~ info (o_infoIndex ao) ;;
-  mlet h <~ get p_handle ;;
-  if hasFlag flags aml_pOpFlagNamed || negb (o_tableHandle ao =? h) then continue else
-  let argCnt := argCount argFlags in
-  let tai := termArgIndex argFlags in
-  mlet na <~ tq (fun t => NumArgs t (Some argObj)) ;;
-  if (argCnt <=? tai) || (tai <? na) then continue else
-  mlet r <~ attachSiblingsAsArgs fuel' obj argObj (w8 (argCnt + 0x100 - tai)) true ;;
-  if pres_eqb r RFailed then ret RFailed else continue
+  mlet r <~ connectNonNamedObjArg fuel' obj argObj ;;
+  if pres_eqb r RFailed then ret RFailed else
+  mlet prev <~ rdf argObj o_prev ;; connectNonNamed_loop fuel' obj prev
   end.
 
 (** ---- resolveMethodCalls ---- *)
@@ -904,7 +910,10 @@ with resolveCalls_loop (fuel : nat) (obj : N) (argIndex : N) : M pres :=
   let continue := mlet prev <~ rdf argObj o_prev ;; resolveCalls_loop fuel' obj prev in
   mlet ao <~ rdo argObj ;;
   mlet h <~ get p_handle ;;
-  if negb (o_opcode ao =? aml_pOpIntNamePathOrMethodCall) || negb (o_tableHandle ao =? h) then continue else
+  if negb (o_opcode ao =? aml_pOpIntNamePathOrMethodCall) || negb (o_tableHandle ao =? h) then
+    (mlet r <~ connectNonNamedObjArg fuel' obj argObj ;;
+     if pres_eqb r RFailed then ret RFailed else continue)
+  else
   match o_value ao with
   | Some (VBytes tbl sl) =>
     mlet expr <~ bytesOf tbl sl ;;
